@@ -96,6 +96,10 @@ pin_project! {
         #[pin]
         limit_stream: L,
 
+        // Whether `limit_stream` has ended. A stream must not be polled again after
+        // it has returned `None`.
+        limit_stream_ended: bool,
+
         // The buffered vector that is updated with the main stream's items.
         // It's used to provide missing items, e.g. when the limit increases.
         buffered_vector: Vector<VectorDiffContainerStreamElement<S>>,
@@ -162,6 +166,7 @@ where
             buffered_vector: initial_values,
             limit: 0,
             ready_values: Default::default(),
+            limit_stream_ended: false,
         }
     }
 
@@ -188,6 +193,7 @@ where
             buffered_vector,
             limit: initial_limit,
             ready_values: Default::default(),
+            limit_stream_ended: false,
         };
 
         (initial_values, stream)
@@ -241,14 +247,21 @@ where
             }
 
             // Poll a new limit from `limit_stream` before polling `inner_stream`.
-            while let Poll::Ready(Some(next_limit)) = self.limit_stream.as_mut().poll_next(cx) {
-                // Update the limit and emit `VectorDiff`s accordingly.
-                if let Some(diffs) = self.update_limit(next_limit) {
-                    return Poll::Ready(S::Item::extend_tail_buf(diffs, self.ready_values));
-                }
+            // (Once `limit_stream` has ended, it is not polled anymore.)
+            while !*self.limit_stream_ended {
+                match self.limit_stream.as_mut().poll_next(cx) {
+                    Poll::Ready(Some(next_limit)) => {
+                        // Update the limit and emit `VectorDiff`s accordingly.
+                        if let Some(diffs) = self.update_limit(next_limit) {
+                            return Poll::Ready(S::Item::extend_tail_buf(diffs, self.ready_values));
+                        }
 
-                // If `update_limit` returned `None`, poll the limit stream
-                // again.
+                        // If `update_limit` returned `None`, poll the limit stream
+                        // again.
+                    }
+                    Poll::Ready(None) => *self.limit_stream_ended = true,
+                    Poll::Pending => break,
+                }
             }
 
             // Poll `VectorDiff`s from the `inner_stream`.
